@@ -8,7 +8,7 @@ Open Scope string_scope.
 Open Scope list_scope.
 
 (* ---- the property over everything that is probed: a request that returns quietly was well-formed ---- *)
-(* Full statement (F1-F4 repaired: D48, D49, D76, D79; one finding open: F5): *)
+(* Full statement (F1-F5 repaired: D48, D49, D76, D79, D109; one finding open: F6): *)
 Definition C20_full : Prop := C20_full_statement.
 (* = forall p, WFprobe p -> impl p = Ok -> WellFormed p *)
 
@@ -21,23 +21,32 @@ Theorem C20_malformed_is_loud : forall p, WFprobe p -> guard p = true -> ~ WellF
 Proof. exact malformed_is_loud. Qed.
 Print Assumptions C20_malformed_is_loud.
 
-(* HEADLINE on the current tree (F1-F4 repaired by D48, D49, D76, D79: Guards.fixed_F3 = fixed_F4 = true): the full
-   statement holds for every probe except a backend NAME that is not one of the documented ones (finding F5: 'JAX',
-   'Torch', 'jaxx', 'tensorflow' silently select the numpy backend; switch Guards.fixed_F5) *)
-Theorem C20_full_holds_modulo_F5 : forall p, WFprobe p -> guard_backend_documented p = true -> impl p = Ok -> WellFormed p.
-Proof. exact (GuardsProofs.C20_full_modulo_F5_when_F3_F4_fixed eq_refl eq_refl). Qed.
-Print Assumptions C20_full_holds_modulo_F5.
-(* with /verif/fixes/proposed_fix_C20_F5.diff and fixed_F5 := true: `C20_full_holds := C20_full_when_fixed eq_refl eq_refl eq_refl` *)
-Theorem C20_full_when_fixed : fixed_F3 = true -> fixed_F4 = true -> fixed_F5 = true -> C20_full_statement.
+(* HEADLINE on the current tree (F1-F5 repaired by D48, D49, D76, D79, D109: Guards.fixed_F3 = fixed_F4 = fixed_F5 = true): the
+   full statement holds for every probe except get_run_func / get_jacobian_func with a solver the backend does not have
+   (finding F6: `solver=` is not validated there, a function is returned; switch Guards.fixed_F6) *)
+Theorem C20_full_holds_modulo_F6 : forall p, WFprobe p -> guard_solver_checked_at_entry p = true -> impl p = Ok -> WellFormed p.
+Proof. exact (GuardsProofs.C20_full_modulo_F6_when_others_fixed eq_refl eq_refl eq_refl). Qed.
+Print Assumptions C20_full_holds_modulo_F6.
+(* with /verif/fixes/proposed_fix_C20_solver_in_get_run_func.diff and fixed_F6 := true:
+   `C20_full_holds := C20_full_when_fixed eq_refl eq_refl eq_refl eq_refl` (no guard) *)
+Theorem C20_full_when_fixed : fixed_F3 = true -> fixed_F4 = true -> fixed_F5 = true -> fixed_F6 = true -> C20_full_statement.
 Proof. exact GuardsProofs.C20_full_when_fixed. Qed.
 Print Assumptions C20_full_when_fixed.
-Theorem C20_full_malformed_is_loud_when_fixed : fixed_F3 = true -> fixed_F4 = true -> fixed_F5 = true ->
+Theorem C20_full_malformed_is_loud_when_fixed : fixed_F3 = true -> fixed_F4 = true -> fixed_F5 = true -> fixed_F6 = true ->
   forall p, WFprobe p -> ~ WellFormed p -> loud_enough p (impl p).
 Proof. exact GuardsProofs.malformed_is_loud_when_fixed. Qed.
 Print Assumptions C20_full_malformed_is_loud_when_fixed.
-Theorem C20_refuted_backend_name : fixed_F5 = false -> ~ C20_full_statement /\ guard_backend_documented F5_probe = false.
+Theorem C20_refuted_solver_in_get_run_func : fixed_F6 = false ->
+  ~ C20_full_statement /\ guard_solver_checked_at_entry F6_probe = false.
+Proof. exact GuardsProofs.C20_refuted_solver_in_get_run_func. Qed.
+Print Assumptions C20_refuted_solver_in_get_run_func.
+Theorem C20_solver_in_get_run_func_repaired : forall c, accepts_gen true c = Ok <-> Supported c.
+Proof. exact solver_in_get_run_func_repaired. Qed.
+Print Assumptions C20_solver_in_get_run_func_repaired.
+(* before D109 (fixed_F5 = false) the statement was also refuted by an undocumented backend name (F5) *)
+Theorem C20_refuted_backend_name_before_fix : fixed_F5 = false -> ~ C20_full_statement /\ guard_backend_documented F5_probe = false.
 Proof. exact GuardsProofs.C20_refuted_backend_name. Qed.
-Print Assumptions C20_refuted_backend_name.
+Print Assumptions C20_refuted_backend_name_before_fix.
 Theorem C20_backend_name_repaired : forall v, documented_backend v = None -> backend_result true v = Err EPyRates.
 Proof. exact backend_name_repaired. Qed.
 Print Assumptions C20_backend_name_repaired.
@@ -88,11 +97,14 @@ Theorem C20_matrix_is_whole_domain : (forall c, In c all_configs) /\ List.length
 Proof. exact (conj all_configs_complete all_configs_count). Qed.
 Print Assumptions C20_matrix_is_whole_domain.
 
-Theorem C20_accepts_iff_supported : forall c, accepts c = Ok <-> Supported c.
+Theorem C20_accepts_iff_supported : forall c, g6 fixed_F6 c = true -> (accepts c = Ok <-> Supported c).
 Proof. exact accepts_iff_supported. Qed.
 Print Assumptions C20_accepts_iff_supported.
+Theorem C20_supported_is_accepted : forall c, Supported c -> accepts c = Ok.
+Proof. exact supported_is_accepted. Qed.
+Print Assumptions C20_supported_is_accepted.
 
-Theorem C20_numbers_only_if_supported : forall c, outcome c = Ok -> Supported c.
+Theorem C20_numbers_only_if_supported : forall c, g6 fixed_F6 c = true -> outcome c = Ok -> Supported c.
 Proof. exact outcome_ok_supported. Qed.
 Print Assumptions C20_numbers_only_if_supported.
 
@@ -194,12 +206,14 @@ Proof. exact node_value_unknown_node_warns. Qed.
 Print Assumptions C20_node_value_unknown_node_warns.
 
 (* a model that mixes a plain-delay edge with a delay+spread edge is treated like a discrete delay, in either order *)
-Theorem C20_mixed_delays : forall b s v fp e, mixed_outcome b s v fp e = Ok -> Supported (mixed_config b s v e).
+Theorem C20_mixed_delays : forall b s v fp e, g6 fixed_F6 (mixed_config b s v e) = true ->
+  mixed_outcome b s v fp e = Ok -> Supported (mixed_config b s v e).
 Proof. exact mixed_ok_supported. Qed.
 Print Assumptions C20_mixed_delays.
 
 (* ... and so is the same mixture of matrix connections of a population (Connectivity API), in either order *)
-Theorem C20_mixed_population_delays : forall b s v fp e, pop_outcome b s v fp e = Ok -> Supported (mixed_config b s v e).
+Theorem C20_mixed_population_delays : forall b s v fp e, g6 fixed_F6 (pop_config b s v e) = true ->
+  pop_outcome b s v fp e = Ok -> Supported (pop_config b s v e).
 Proof. exact pop_ok_supported. Qed.
 Print Assumptions C20_mixed_population_delays.
 
